@@ -764,11 +764,30 @@ impl Xot {
                         // we do this at the end so the deduplicate tracker
                         // has had a change to do its work for sub-elements
                         let namespaces = self.namespaces(node);
+                        // A declaration can only go if a prefix for the
+                        // namespace from the outer scope stays usable
+                        // everywhere in this element: it must not be bound to
+                        // another namespace by this element or below it.
+                        let outer_prefix_survives = |namespace_id: NamespaceId| {
+                            fullname_serializer
+                                .prefixes_for_namespace(namespace_id)
+                                .into_iter()
+                                .any(|prefix| {
+                                    !self.descendants(node).any(|descendant| {
+                                        self.is_element(descendant)
+                                            && matches!(
+                                                self.namespaces(descendant).get(prefix),
+                                                Some(ns) if *ns != namespace_id
+                                            )
+                                    })
+                                })
+                        };
                         let to_remove = namespaces
                             .iter()
                             .filter_map(|(_, namespace_id)| {
                                 if fullname_serializer.is_namespace_known(*namespace_id)
                                     && deduplicate_tracker.is_safe_to_remove(*namespace_id)
+                                    && outer_prefix_survives(*namespace_id)
                                 {
                                     Some(*namespace_id)
                                 } else {
